@@ -94,10 +94,16 @@ def chains(rnd, n_chains, rounds=5):
     A = assignors()["sticky"]
     n = 0
     fails = []
-    for _ in range(n_chains):
+    for ci in range(n_chains):
         parts, subs = random_case(rnd, max_members=8, max_topics=5, max_parts=8)
         topics = sorted(set(itertools.chain.from_iterable(subs.values())))
-        subs = {m: list(topics) for m in subs}                 # equal subscriptions
+
+        def listing(topics=topics, shuffle=bool(ci % 2)):
+            t = list(topics)
+            if shuffle:
+                rnd.shuffle(t)            # equal subscriptions listed in a member-specific order (every other chain)
+            return t
+        subs = {m: listing() for m in sorted(subs)}             # equal subscriptions
         res = run(A, parts, subs)
         gen = 1
         for _r in range(rounds - 1):
@@ -110,7 +116,7 @@ def chains(rnd, n_chains, rounds=5):
             elif choice == "added":
                 subs2 = dict(subs)
                 for i in range(rnd.randint(1, 2)):
-                    subs2["x%d_%d" % (gen, i)] = list(topics)
+                    subs2["x%d_%d" % (gen, i)] = listing()
             else:
                 choice, subs2 = "identical", dict(subs)
             res2 = run(A, parts, subs2, previous=prev, generation=gen)
@@ -120,6 +126,45 @@ def chains(rnd, n_chains, rounds=5):
                 fails.append({"kind": choice, "partitions": parts, "round1": subs, "round2": subs2, "errors": errs[:3]})
                 break
             subs, res, gen = subs2, res2, gen + 1
+    return n, fails
+
+
+def _scale_chain(args):
+    """members join one at a time up to max_m, stay one round, then leave one at a time"""
+    ntopics, nparts, descending, stranger, max_m = args
+    A = assignors()["sticky"]
+    topics = ["t%d" % i for i in range(ntopics)]
+    parts = {t: nparts for t in topics}
+    if stranger:
+        parts["unsubscribed"] = 3            # a cluster topic nobody subscribes to (pattern subscriptions see those)
+    names = ["m%02d" % i for i in range(max_m)]
+    if descending:
+        names = names[::-1]
+    subs = {names[0]: list(topics)}
+    res = run(A, parts, subs)
+    plan = [("added", names[:k]) for k in range(2, max_m + 1)] + [("identical", names)] + \
+           [("removed", names[:k]) for k in range(max_m - 1, 0, -1)]
+    n, fails = 0, []
+    for gen, (kind, members) in enumerate(plan, start=1):
+        prev = {m: tps(v) for m, v in res.items()}
+        subs2 = {m: list(topics) for m in members}
+        res2 = run(A, parts, subs2, previous=prev, generation=gen)
+        n += 1
+        errs = check_round(kind, parts, subs, res, subs2, res2)
+        if errs:
+            fails.append({"kind": kind, "partitions": parts, "round1": subs, "round2": subs2, "generation": gen, "errors": errs[:3]})
+            break
+        subs, res = subs2, res2
+    return n, fails
+
+
+def scale_chains(max_p, max_m, jobs=16):
+    cases = [(nt, p, d, s, max_m) for nt in (1, 2) for p in range(1, max_p + 1) for d in (False, True) for s in (False, True)]
+    n, fails = 0, []
+    with mp.Pool(jobs) as pool:
+        for a, f in pool.imap_unordered(_scale_chain, cases, chunksize=4):
+            n += a
+            fails.extend(f)
     return n, fails
 
 
@@ -150,11 +195,18 @@ def main():
                    "subscription, followed by (a) the identical round, (b) every non-empty proper subset of members removed, "
                    "(c) 1..2 members added [b, c when all subscriptions are equal]" % (bm, bp),
           "failures": fails, "wall_s": round(time.time() - t0, 1), "replay": {"script": REPLAY}})
+    mp_, mm = (24, 6) if a.tier == "quick" else (48, 9)
+    n, fails = scale_chains(mp_, mm)
+    emit({"name": "sticky-scale-out-in-chains", "exhaustive": True, "cases": n, "distinct_nontrivial": n,
+          "bound": "1..2 topics x 1..%d partitions each x member ids ascending/descending x with/without a cluster topic nobody "
+                   "subscribes to: members join one at a time up to %d, one identical round, then leave one at a time "
+                   "(every round checked against a/b/c)" % (mp_, mm),
+          "failures": fails[:20], "failures_total": len(fails), "replay": {"script": REPLAY_SCALE}})
     n, fails = chains(random.Random(a.seed), nch)
-    fails.sort(key=lambda f: f.get("kind") == "added")       # every kind of failure is listed; the recorded kind last
     emit({"name": "sticky-chains-random", "exhaustive": False, "cases": n, "distinct_nontrivial": n,
-          "bound": "%d seeded chains of up to 5 rounds (members leave / join / stay, equal subscriptions), seed %d" % (nch, a.seed),
-          "failures": fails[:60], "failures_total": len(fails), "replay": {"script": REPLAY}})
+          "bound": "%d seeded chains of up to 5 rounds (members leave / join / stay, equal subscriptions, every other chain with "
+                   "member-specific topic order; cluster topics nobody subscribes to occur), seed %d" % (nch, a.seed),
+          "failures": fails[:60], "failures_total": len(fails), "replay": {"script": REPLAY_CHAINS % a.seed}})
 
 
 REPLAY = '''
@@ -164,6 +216,24 @@ from bounded import C15
 n, nontrivial, fails = C15.sweep(3, 2, jobs=8)
 VIOLATED = bool(fails)
 DETAIL = "sticky assignor, two rounds, %d cases: %r" % (n, fails[:1])
+'''
+
+REPLAY_SCALE = '''
+import sys
+sys.path.insert(0, "/verif")
+from bounded import C15
+n, fails = C15.scale_chains(24, 6, jobs=8)
+VIOLATED = bool(fails)
+DETAIL = "sticky assignor, scale-out/in chains, %d rounds: %r" % (n, fails[:1])
+'''
+
+REPLAY_CHAINS = '''
+import sys, random
+sys.path.insert(0, "/verif")
+from bounded import C15
+n, fails = C15.chains(random.Random(%d), 600)
+VIOLATED = bool(fails)
+DETAIL = "sticky assignor, random chains, %%d rounds: %%r" %% (n, fails[:1])
 '''
 
 if __name__ == "__main__":
